@@ -174,13 +174,20 @@ def run(ctx):
         "that the C++ confines every write to the stream's own state is a runtime fact: tested by "
         "threads-vs-serial differential runs and (thorough tier) ThreadSanitizer on the harness + "
         "the stream-facing translation units; the libraries themselves are not TSan-instrumented",
+        "event level: the theorems assume EvSem.Isolated (the event boundary overwrites every datum "
+        "transport reads with a function of (params, event id); the result does not read the "
+        "stream id) — for the C++ this is what the fresh-stream reference comparison tests",
         "OpenMP is disabled in the harness (CELER_DISABLE_PARALLEL, OMP_NUM_THREADS=1): "
         "concurrency comes from std::thread only",
     ]
     ctx.coverage["explanation"] = (
         "PROVED (Lean, on the model Model/Streams.lean): steps_commute, "
         "any_interleaving_equals_any_other, any_interleaving_equals_serial (any number of "
-        "streams, any step-list lengths, any schedule), lazy_create_idempotent — i.e. the DESIGN "
+        "streams, any step-list lengths, any schedule), lazy_create_idempotent; event level: "
+        "any_assignment_gives_reference_results, assignments_agree, "
+        "concurrent_equals_single_stream under the isolation contract EvSem.Isolated (event "
+        "boundary overwrites everything transport reads; result ignores the stream id), "
+        "leaky_depends_on_assignment (the contract is necessary) — i.e. the DESIGN "
         "(immutable shared params, per-stream state, lazily created per-stream stores) is "
         "interference-free.  TESTED ONLY: that the C++ implements this design — per-event step "
         "streams, StepperResult sequences, diagnostics and calorimeter totals of 2-16 concurrent "
